@@ -239,7 +239,15 @@ pub unsafe fn io_uring_enter(fd: i32, to_submit: u32, min_complete: u32, flags: 
         let Some(op) = op else { break };
         with_stats(|s| s.sqes += 1);
         submitted += 1;
-        klog(|| format!("kernel: submit #{} {} fd {} user_data {:#x}", op.seq, ops::op_name(op.opcode), op.fd, op.user_data));
+        // (no raw addresses in logs: they differ from process to process)
+        klog(|| {
+            let ud = match op.user_data {
+                u64::MAX => " [driver: cancel]",
+                x if x == u64::MAX - 1 => " [driver: notifier]",
+                _ => "",
+            };
+            format!("kernel: submit #{} {} fd {} len {}{ud}", op.seq, ops::op_name(op.opcode), op.fd, op.len)
+        });
         sig(0x4b00 + op.opcode as u64);
         with_kernel(|k| {
             let r = k.rings.get_mut(&fd).unwrap();
